@@ -96,6 +96,20 @@ where
     pub fn verif_kkt_view(&self) -> Option<crate::verif::KKTView> {
         self.kktsolver.verif_view()
     }
+
+    /// one solve of the current KKT system for the given right-hand side (verification hook):
+    /// returns the success flag and the solver's internal solution / right-hand side vectors
+    pub fn verif_solve(
+        &mut self,
+        rhsx: &[T],
+        rhsz: &[T],
+        settings: &DefaultSettings<T>,
+    ) -> (bool, Vec<f64>, Vec<f64>) {
+        self.kktsolver.setrhs(rhsx, rhsz);
+        let ok = self.kktsolver.solve(None, None, settings.core());
+        let (x, b) = self.kktsolver.verif_last_solve().unwrap_or_default();
+        (ok, x, b)
+    }
 }
 
 impl<T> HasLinearSolverInfo for DefaultKKTSystem<T>
